@@ -145,6 +145,7 @@ pub broadcast group group_std_ext {
     axiom_str_len,
     axiom_str_byte_len,
     axiom_str_byte_len_concat,
+    axiom_str_bytes,
 }
 
 } // verus!
@@ -370,4 +371,39 @@ pub broadcast axiom fn axiom_trim(s: Seq<char>)
         trim_spec(s).len() > 0 ==> !is_ws(trim_spec(s)[0]);
 pub assume_specification<'a>[ str::trim ](s: &'a str) -> (r: &'a str)
     ensures r@ == trim_spec(s@);
+}
+
+verus! {
+// ---------------------------------------------------------------- `str::bytes()` (R8: `X.bytes()` is re-emitted as `vf_bytes(X)`)
+// `core::str::Bytes` is a foreign type and `IteratorSpecImpl` a foreign trait, so the iterator is
+// modelled by a shim type with the std meaning: it yields the UTF-8 bytes of the string in order.
+pub broadcast axiom fn axiom_str_bytes(s: Seq<char>)
+    ensures
+        #[trigger] str_bytes(s).len() == str_byte_len(s),
+        // a string is ASCII exactly when all its UTF-8 bytes are < 128, and then bytes and chars coincide
+        (forall|i: int| 0 <= i < str_bytes(s).len() ==> str_bytes(s)[i] < 128) ==>
+            s.len() == str_bytes(s).len() && forall|i: int| 0 <= i < s.len() ==> s[i] as u32 == #[trigger] str_bytes(s)[i] as u32;
+pub struct StrBytes { pub items: Ghost<Seq<u8>> }
+impl Iterator for StrBytes {
+    type Item = u8;
+    #[verifier::external_body]
+    fn next(&mut self) -> Option<u8> { unimplemented!() }
+}
+impl vstd::std_specs::iter::IteratorSpecImpl for StrBytes {
+    open spec fn obeys_prophetic_iter_laws(&self) -> bool { true }
+    open spec fn remaining(&self) -> Seq<u8> { self.items@ }
+    open spec fn will_return_none(&self) -> bool { true }
+    open spec fn decrease(&self) -> Option<nat> { Some(self.items@.len()) }
+    open spec fn peek(&self, i: int) -> Option<u8> { if 0 <= i < self.items@.len() { Some(self.items@[i]) } else { None } }
+}
+#[verifier::external_body]
+pub fn vf_bytes(s: &str) -> (r: StrBytes) ensures r.items@ == str_bytes(s@) { unimplemented!() }
+
+pub assume_specification[ u8::is_ascii_lowercase ](b: &u8) -> (o: bool) ensures o == (97 <= *b <= 122);
+pub assume_specification[ u8::is_ascii_uppercase ](b: &u8) -> (o: bool) ensures o == (65 <= *b <= 90);
+pub open spec fn ascii_lower_char(c: char) -> char { if 65 <= c as u32 <= 90 { ((c as u32 + 32) as u8) as char } else { c } }
+pub open spec fn ascii_lower(s: Seq<char>) -> Seq<char> { s.map_values(|c: char| ascii_lower_char(c)) }
+/// `str::to_lowercase` on ASCII-only text is ASCII lower-casing (nothing is said about other text)
+pub assume_specification[ str::to_lowercase ](s: &str) -> (r: String)
+    ensures (forall|i: int| 0 <= i < s@.len() ==> (s@[i] as u32) < 128) ==> r@ == ascii_lower(s@);
 }
